@@ -392,6 +392,7 @@ def stream_receiver_paths(chk, fx, kind, b, mlen):
                 interp.trace.append(("split", args[0], args[1], node.get("sp")))
                 return ("sym", "MESSAGE")
             if s2 in ("AsyncReadExt::read_buf", "AsyncReadExt::read") and len(args) >= 2:
+                interp.trace.append(("readsrc", args[0], node.get("sp")))
                 interp.trace.append(("read", args[1], node.get("sp")))
                 return ("term", "async-ready", (("sym", "READ"),))
             if s2 in DISCARDING and args:
@@ -419,6 +420,14 @@ def stream_receiver_paths(chk, fx, kind, b, mlen):
         key = {"read": "read-buffer-not-in-handle", "find": "searched-buffer-not-in-handle"}[e[0]]
         chk.instance("C06/R4", "%s: %s is a field of the handle (survives the call): %s" % (kind, what, root[:60]), b.name, loc_of(e[-1]), holds=in_handle,
                      key="C06/R4 %s %s" % (fn, key))
+    # .. and read *from* the handle's own reader: an adaptor created for the call (a BufReader around it, "to save syscalls") reads ahead
+    # into its own buffer, and what it holds when recv returns is gone
+    srcs = [e for p in paths for e in p.trace if e[0] == "readsrc"][:1]
+    for e in srcs:
+        root, in_handle = _buffer_root(e[1])
+        chk.instance("C06/R4", "%s: bytes are read from the handle's own reader (%s)" % (kind, root[:60]), b.name, loc_of(e[2]), holds=in_handle and "(" not in root,
+                     key="C06/R4 %s read-through-a-per-call-adaptor" % fn,
+                     detail=None if in_handle and "(" not in root else "the reader is built for this call: bytes it has read ahead are dropped with it")
     chk.floor("C06 %s find/read/split sites" % kind, min(len(finds), len(reads), len(splits)), 1)
     chk.call_sites += len(finds) + len(reads) + len(splits)
 
